@@ -31,6 +31,9 @@ type edge struct {
 	Pre  []any `json:"pre"`
 	Act  J     `json:"act"`
 	Post []any `json:"post"`
+	// chains: the IR the chain started from and every transformation so far (Act is the last one)
+	Init []any `json:"init"`
+	Hist []J   `json:"hist"`
 }
 
 func objRef(j any) verifapi.ObjectReference {
@@ -536,13 +539,25 @@ func c15Replay(args []string) int {
 			return
 		}
 		actName := jstr(e.Act["a"])
+		if len(e.Hist) > 1 {
+			names := []string{}
+			for _, h := range e.Hist {
+				names = append(names, jstr(h["a"]))
+			}
+			actName = strings.Join(names, ">")
+		}
 		wantErr := jbool(e.Act["err"])
 		want := any(e.Post)
 		nontrivial := canon(e.Pre) != canon(e.Post) || wantErr
 		sel := selectorSpelling(e.Act, e.Pre)
 		inputMutated := false
+		chain := len(e.Hist) > 1
+		startIR := any(e.Pre)
+		if chain {
+			startIR = any(e.Init)
+		}
 		run := func(viaYAML bool) (any, bool, string) {
-			schemas, err := unprojSchemas(any(e.Pre))
+			schemas, err := unprojSchemas(startIR)
 			if err != nil {
 				return nil, false, "harness: " + err.Error()
 			}
@@ -551,6 +566,20 @@ func c15Replay(args []string) int {
 				return nil, false, "harness: " + err.Error()
 			}
 			passes := verifapi.Passes{pass}
+			if chain {
+				// the whole chain in ONE Passes.Process call, as a transformation file is applied
+				if viaYAML {
+					return nil, false, "noyaml"
+				}
+				passes = verifapi.Passes{}
+				for _, h := range e.Hist {
+					p, _, err := passFromAct(h)
+					if err != nil {
+						return nil, false, "harness: " + err.Error()
+					}
+					passes = append(passes, p)
+				}
+			}
 			if viaYAML {
 				if y == "" {
 					return nil, false, "noyaml"
@@ -576,7 +605,7 @@ func c15Replay(args []string) int {
 			}
 			// the schemas handed to the chain must not have been modified (C07/C18): reported
 			// under C07, and does not mask the comparison of the result
-			if canon(projSchemas(schemas)) != canon(any(e.Pre)) {
+			if canon(projSchemas(schemas)) != canon(startIR) {
 				inputMutated = true
 			}
 			if perr != nil {
@@ -608,7 +637,7 @@ func c15Replay(args []string) int {
 			if !viaYAML {
 				realPost, realErr = got, gotErr
 			}
-			ex := J{"pre": e.Pre, "act": e.Act, "expected": e.Post, "route": route}
+			ex := J{"pre": e.Pre, "act": e.Act, "expected": e.Post, "route": route, "init": e.Init, "hist": e.Hist}
 			if problem != "" {
 				okEdge = false
 				if strings.HasPrefix(problem, "harness") {
@@ -632,10 +661,10 @@ func c15Replay(args []string) int {
 				continue
 			}
 			w, g := want, got
-			if actName == "prefix_objects_names" {
+			if strings.Contains(actName, "prefix_objects_names") {
 				w, g = blankMemberNames(w), blankMemberNames(g)
 			}
-			if actName == "replace_reference" {
+			if strings.Contains(actName, "replace_reference") {
 				w, g = blankMappingTargets(w), blankMappingTargets(g)
 			}
 			if canon(w) == canon(g) {
@@ -658,10 +687,11 @@ func c15Replay(args []string) int {
 			}
 		}
 		if inputMutated {
-			d := firstDiff(normalize(any(e.Pre)), normalize(projSchemasAfter(e, false)), nil, nil)
-			cls := "unclassified"
-			if d != nil {
-				cls = classify(d)
+			cls := "chain"
+			if !chain {
+				if d := firstDiff(normalize(any(e.Pre)), normalize(projSchemasAfter(e, false)), nil, nil); d != nil {
+					cls = classify(d)
+				}
 			}
 			fails = append(fails, failure{fmt.Sprintf("C07/input-mutated/%s/%s", actName, cls), J{"pre": e.Pre, "act": e.Act}})
 		}
